@@ -300,7 +300,7 @@ func c01WrongForms(e *mocrelay.Event) map[string][]byte {
 
 func TestVerif_C01(t *testing.T) {
 	rep := vk.NewReport(t, "C01", "exploration")
-	rep.Rule = "freshly signed events (32 fixed + seeded keys, every kind class, boundary created_at, 0-8 tags of 0-5 elements, hostile content and tag values, a complete sweep of U+0000..U+FFFF minus surrogates and 4096 astral samples), 1300/4200 distinct authors in one process (re-checked afterwards, with cross-signed forgeries), each event with sampled tamperings from a 27-entry catalogue, ids/signatures with a 00 byte at either end cut off or padded and wrong-canonicalisation forgeries; oracle = reference canonical form + SHA-256 + independent BIP-340 verifier; added later: tag names too are hostile now and then (one-byte names that need escaping, the empty name); altered copies include one flipped bit of one character of id, pubkey or sig (results that merely respell a hex digit in the other case are left out); non-trivial = the event contains a character some JSON encoder escapes or any non-ASCII character, or is a tampering/forgery; distinct = distinct (event id, tamper class)"
+	rep.Rule = "freshly signed events (32 fixed + seeded keys, every kind class, boundary created_at, 0-8 tags of 0-5 elements, hostile content and tag values, a complete sweep of U+0000..U+FFFF minus surrogates and 4096 astral samples), 1300/4200 distinct authors in one process (re-checked afterwards, with cross-signed forgeries), each event with sampled tamperings from a 27-entry catalogue, ids/signatures with a 00 byte at either end cut off or padded and wrong-canonicalisation forgeries; oracle = reference canonical form + SHA-256 + independent BIP-340 verifier; added later: contents of 16-136 kB, among them runs of one 2-, 3- or 4-byte character at every byte alignment; tag names too are hostile now and then (one-byte names that need escaping, the empty name); altered copies include one flipped bit of one character of id, pubkey or sig (results that merely respell a hex digit in the other case are left out); non-trivial = the event contains a character some JSON encoder escapes or any non-ASCII character, or is a tampering/forgery; distinct = distinct (event id, tamper class)"
 	rep.Assume("the independent BIP-340 verifier passed the official test vectors at start-up")
 	defer rep.Finish()
 
@@ -456,6 +456,47 @@ func TestVerif_C01(t *testing.T) {
 		}
 		check(r, keys[i%len(keys)], e, "long content")
 		rep.Count("long_contents", 1)
+	})
+
+	// (1c) very long contents (up to ~136 kB): runs of one 2-, 3- or 4-byte character at every
+	// byte alignment, so that every boundary of a block-wise hasher or escaper (any multiple
+	// of 4, 8, 16, 32, 64 KiB ...) is crossed with the character cut at each of its bytes,
+	// plus mixed contents of 16-136 kB
+	type c01Run struct {
+		ch  string
+		off int
+	}
+	var runs []c01Run
+	for _, ch := range []string{"\u00e9", "\u3042", "\U0001F600", "\U00010348"} {
+		for off := 0; off < len(ch); off++ {
+			runs = append(runs, c01Run{ch, off})
+		}
+	}
+	nHuge := len(runs) + vk.N(8, 60)
+	vk.Parallel(nHuge, func(i int) {
+		r := vk.RNG("C01/huge", i)
+		var b strings.Builder
+		if i < len(runs) {
+			b.WriteString(strings.Repeat("a", runs[i].off))
+			b.WriteString(strings.Repeat(runs[i].ch, (132000+r.IntN(4000))/len(runs[i].ch)))
+		} else {
+			target := 16000 + r.IntN(120000)
+			for b.Len() < target {
+				switch r.IntN(12) {
+				case 0:
+					b.WriteString(vk.Pick(r, []string{"\"", "\\", "<", "&", "\u2028", "\x7f", "\x01", "\n"}))
+				case 1, 2:
+					b.WriteString(strings.Repeat("x", 1+r.IntN(3)))
+				case 3, 4, 5:
+					b.WriteString(strings.Repeat(string(rune(0x10000+r.IntN(0xffff))), 1+r.IntN(6)))
+				default:
+					b.WriteString(strings.Repeat(string(vk.Pick(r, []rune{0xe9, 0x3042, 0x4e2d, 0x20ac, 0xfffd})), 1+r.IntN(9)))
+				}
+			}
+		}
+		e := c01Event(r, b.String())
+		check(r, keys[i%len(keys)], e, "very long content")
+		rep.Count("very_long_contents", 1)
 	})
 
 	// (2) code-point sweep: every scalar value of the BMP, 64 per event, and the
